@@ -232,12 +232,18 @@ def main():
         scr = ",".join(rng.choice(["k0", "k1", "k2", "k5", "k99", "i", "i", "e"] if rng.random() < 0.3 else ["k0", "k1", "k3", "k50", "i"]) for _ in range(rng.randint(0, 15))) or "-"
         src_ = bytes(rng.choice(b"ab\n\n\nc") for _ in range(rng.choice([0, 1, 2, 5, 40, 200, 200, 9000 if rng.random() < 0.2 else 60])))
         sl2.append("in %d %s 0a %s" % (cap, scr, vlib.hx(src_)))
+    for _ in range(250 * N):
+        cap = rng.choice([1, 2, 3, 7, 16, 100])
+        scr = ",".join(rng.choice(["k0", "k1", "k2", "k5", "k99", "i", "i", "e"] if rng.random() < 0.3 else ["k0", "k1", "k3", "k50", "i"]) for _ in range(rng.randint(0, 12))) or "-"
+        src_ = bytes(rng.randrange(256) for _ in range(rng.choice([0, 1, 2, 5, 40, 200])))
+        lens = ",".join(str(rng.choice([0, 1, 2, 3, cap - 1, cap, cap + 1, 2 * cap, 50]) if rng.random() < 0.7 else rng.randint(0, 30)) for _ in range(rng.randint(1, 10)))
+        sl2.append("get %d %s %s %s" % (cap, scr, lens.replace("-1", "0"), vlib.hx(src_)))
     real = tie("h_substdio", None, sl2, "substdio", link=["getln.a", "substdio.a", "stralloc.a", "error.a", "str.a"])
     if real:
         # substdo.c as generated from today's source (op = the scripted write oracle), every access checked: same answers as the compiled functions
         try:
             # (lines of at most 1500 bytes of data: the generated byte_copy writes a list element per step, quadratic in the buffer size)
-            outl = [(l_, a_) for l_, a_ in zip(sl2, real) if l_.startswith("out") and len(l_) < 3000]
+            outl = [(l_, a_) for l_, a_ in zip(sl2, real) if (l_.startswith("out") and len(l_) < 3000) or l_.startswith("get")]
             g_, _, _ = vlib.run_lines(vlib.build_driver("GEN"), [l_ for l_, _ in outl])
             for (l_, a_), y_ in zip(outl, g_):
                 ck.count("substdio_generated")
